@@ -145,6 +145,27 @@ def run(ctx: Ctx) -> None:
                 each = any(isinstance(c, ast.Call) and isinstance(c.func, ast.Attribute) and c.func.attr == "write" and any(isinstance(x, ast.Name) and x.id in carry for x in ast.walk(c))
                            for b in loops_[0].body for c in ast.walk(b))
             ok = head and each
+            if not ok and writes:
+                # the rule text built first and written once: the written expression's backward slice (over the
+                # assignments of the function) holds the target with a ':' and an iteration over the collected files
+                defs_: Dict[str, List[ast.AST]] = {}
+                for a_ in ast.walk(p):
+                    if isinstance(a_, ast.Assign):
+                        for t in a_.targets:
+                            if isinstance(t, ast.Name):
+                                defs_.setdefault(t.id, []).append(a_.value)
+                slice_: List[ast.AST] = [a for w_ in writes for a in w_.args]
+                seen_n: Set[str] = set()
+                k_ = 0
+                while k_ < len(slice_):
+                    for x in ast.walk(slice_[k_]):
+                        if isinstance(x, ast.Name) and x.id not in seen_n:
+                            seen_n.add(x.id)
+                            slice_.extend(defs_.get(x.id, []))
+                    k_ += 1
+                iterates = any(isinstance(g, ast.comprehension) and any(isinstance(x, ast.Name) and x.id == dname for x in ast.walk(g.iter)) for e_ in slice_ for g in ast.walk(e_))
+                colon = any(isinstance(x, ast.Constant) and isinstance(x.value, str) and ":" in x.value for e_ in slice_ for x in ast.walk(e_))
+                ok = "target" in seen_n and colon and iterates and dname in seen_n
     ctx.ob("R19.3", "preprocessor:make_pcpp_preprocessor|depfile names the target and every collected file", ok, msg="the pcpp depfile no longer lists the target followed by every file the filter collected", node=p, mod=pp)
     pf = pp.func("_pcpp_filter")
     ftxt = norm(pf)
@@ -211,6 +232,41 @@ def run(ctx: Ctx) -> None:
                             break
                 ctx.ob("R19.6", f"preprocessor:{factory}|main-file name given to {filt}", via is None,
                        msg=f"the name the filter compares line markers with is derived from the preprocessor's output (`{short(via.stmt, 70) if via is not None else ''}`): a header whose output ends in another file's marker is filtered as if that file were the main one", node=c, mod=pp)
+
+    # ---------------------------------------------------------------- R19.7
+    # gcc writes the file name of a line marker as a C string: a backslash in it comes out doubled, on every platform.
+    # The name the gcc filter compares with goes through the same escaping on every path: the parameter as it was
+    # passed never reaches the comparison (an escaping made conditional on the platform drops every declaration of a
+    # main file whose name contains a backslash elsewhere).
+    ctx.rule("R19.7", "the gcc filter compares markers with the file name escaped like gcc writes it (backslashes doubled), on every path", minimum=1)
+    gf = pp.func("_gcc_filter")
+    gcfg2 = CFG(gf)
+    grd = reaching_defs(gcfg2)
+    fparam = gf.args.args[0].arg
+    def _is_escape(c: ast.AST) -> bool:
+        return isinstance(c, ast.Call) and isinstance(c.func, ast.Attribute) and c.func.attr == "replace" and [a.value for a in c.args if isinstance(a, ast.Constant)] == ["\\", "\\\\"]
+
+    esc = [n for n in gcfg2.nodes if n.kind == "stmt" and isinstance(n.stmt, ast.Assign) and any(isinstance(t, ast.Name) and t.id == fparam for t in n.stmt.targets)
+           and _is_escape(n.stmt.value) and isinstance(n.stmt.value.func.value, ast.Name) and n.stmt.value.func.value.id == fparam]
+    k_ = 0
+    for n in gcfg2.nodes:
+        if n.kind not in ("stmt", "test") or n is gcfg2.entry:
+            continue
+        for x in n.walk():
+            if not (isinstance(x, ast.Name) and x.id == fparam and isinstance(x.ctx, ast.Load)):
+                continue
+            par = pp.parent.get(x)
+            if isinstance(par, ast.Attribute) and par.value is x and _is_escape(pp.parent.get(par)):
+                k_ += 1
+                ctx.ob("R19.7", f"preprocessor:_gcc_filter|use #{k_} of `{fparam}` is the escaping itself", True, node=x, mod=pp, nontrivial=False)
+                continue
+            k_ += 1
+            defs_ = set(grd.get(n.id, {}).get(fparam, ()))
+            ok = bool(esc) and defs_ <= {e.id for e in esc}
+            ctx.ob("R19.7", f"preprocessor:_gcc_filter|use #{k_} of `{fparam}` sees the escaped name", ok,
+                   msg=f"the file name reaches `{short(n.stmt if n.stmt is not None else n.cond, 50)}` without (or not on every path with) its backslashes doubled: gcc always writes them doubled, so the markers of such a main file never match", node=n.stmt or gf, mod=pp)
+    if not k_:
+        raise AnalysisError("anchor vanished: the use of the file-name parameter in _gcc_filter")
 
     # ---------------------------------------------------------------- R19.4
     # "reported line numbers still refer to the main file": the filters keep the line
